@@ -88,6 +88,29 @@ def _pattern(p, subj):
                 tests.append(t)
             binds += b
         return here(ast.BoolOp(op=ast.And(), values=tests)), binds
+    if isinstance(p, ast.MatchSequence) and sum(isinstance(q, ast.MatchStar) for q in p.patterns) == 1:
+        # [a, b, *rest, z]: at least the fixed elements; rest is the list of what lies between
+        si = [i for i, q in enumerate(p.patterns) if isinstance(q, ast.MatchStar)][0]
+        before, after = p.patterns[:si], p.patterns[si + 1:]
+        tests = [here(ast.Call(func=ast.Name(id="isinstance", ctx=ast.Load()), args=[subj, ast.Tuple(elts=[ast.Name(id="list", ctx=ast.Load()), ast.Name(id="tuple", ctx=ast.Load())], ctx=ast.Load())], keywords=[])),
+                 here(ast.Compare(left=ast.Call(func=ast.Name(id="len", ctx=ast.Load()), args=[subj], keywords=[]), ops=[ast.GtE()], comparators=[ast.Constant(len(before) + len(after))]))]
+        binds = []
+        for i, q in enumerate(before):
+            t, b = _pattern(q, here(ast.Subscript(value=subj, slice=ast.Constant(i), ctx=ast.Load())))
+            if t is not None:
+                tests.append(t)
+            binds += b
+        for j, q in enumerate(after):
+            t, b = _pattern(q, here(ast.Subscript(value=subj, slice=ast.UnaryOp(op=ast.USub(), operand=ast.Constant(len(after) - j)), ctx=ast.Load())))
+            if t is not None:
+                tests.append(t)
+            binds += b
+        star = p.patterns[si]
+        if star.name is not None:
+            sl = ast.Slice(lower=ast.Constant(len(before)) if before else None, upper=ast.UnaryOp(op=ast.USub(), operand=ast.Constant(len(after))) if after else None, step=None)
+            binds.append(here(ast.Assign(targets=[ast.Name(id=star.name, ctx=ast.Store())],
+                                         value=ast.Call(func=ast.Name(id="list", ctx=ast.Load()), args=[ast.Subscript(value=subj, slice=sl, ctx=ast.Load())], keywords=[]))))
+        return here(ast.BoolOp(op=ast.And(), values=tests)), binds
     if isinstance(p, ast.MatchClass) and not p.patterns:
         tests = [here(ast.Call(func=ast.Name(id="isinstance", ctx=ast.Load()), args=[subj, p.cls], keywords=[]))]
         binds = []
@@ -308,11 +331,28 @@ class Program:
             elif cur[0] == "extern":
                 cur = ("extern", cur[1] + "." + p)
             elif cur[0] == "class":
-                meths = cur[1].classes[cur[2]]
-                cur = ("func", meths[p]) if p in meths else ("classattr", cur[1], cur[2], p)
+                found = self.inherited_method(cur[1], cur[2], p)
+                cur = ("func", found) if found is not None else ("classattr", cur[1], cur[2], p)
             else:
                 return ("attr", cur, p)
         return cur
+
+    def inherited_method(self, module, cls, name, _depth=0):
+        """The method `name` of class `cls` (own, else of its package base classes, left to right, depth first)."""
+        meths = module.classes.get(cls, {})
+        if name in meths:
+            return meths[name]
+        node = module.classnodes.get(cls)
+        if node is None or _depth > 5:
+            return None
+        for b in node.bases:
+            parts = dotted_parts(b)
+            r = self.resolve_chain(module.name, parts) if parts else None
+            if r is not None and r[0] == "class" and (r[1] is not module or r[2] != cls):
+                f = self.inherited_method(r[1], r[2], name, _depth + 1)
+                if f is not None:
+                    return f
+        return None
 
     def resolve_expr(self, modname, node):
         parts = dotted_parts(node)
@@ -329,6 +369,15 @@ class Program:
                 rest = parts[i:]
                 r = self.resolve_chain(mod, rest) if rest else None
                 if r and r[0] == "func":
+                    if len(rest) == 2 and r[1].cls and r[1].cls != rest[0]:
+                        # Class.method where the method is inherited from a package base class: the object is still a `Class`
+                        # (calls on self dispatch from there)
+                        c0 = self.resolve_chain(mod, rest[:1])
+                        if c0 and c0[0] == "class":
+                            import copy as _copy
+                            f2 = _copy.copy(r[1])
+                            f2.dyn_cls = (c0[1].name, c0[2])
+                            return f2
                     return r[1]
                 break
         raise AnalysisError("anchor function missing: %s" % qualname)
